@@ -209,7 +209,78 @@ class Engine:
 
     def has_field(self, ref: ObjRef, field: str) -> bool:
         shape = self.reg.shapes.get(ref.shape)
-        return shape is not None and field in shape.fields
+        if shape is None:
+            return False
+        if field in shape.fields:
+            return True
+        return self._auto_field(shape, field)
+
+    def dont_care_fields(self):
+        out = set()
+        for sh in self.reg.shapes.values():
+            out |= getattr(sh, "dont_care", set())
+        return out
+
+    _SIMPLE_ANN = {"str": STR, "int": INT, "float": REAL, "bool": BOOL}
+
+    def _ann_type(self, ann):
+        """types of plain annotations: str/int/float/bool, list[...]/set[...]/dict[str, ...] of those, X | None"""
+        if isinstance(ann, ast.Constant) and isinstance(ann.value, str):
+            try:
+                ann = ast.parse(ann.value, mode="eval").body
+            except SyntaxError:
+                return None
+        if isinstance(ann, ast.Name):
+            return self._SIMPLE_ANN.get(ann.id)
+        if isinstance(ann, ast.BinOp) and isinstance(ann.op, ast.BitOr):
+            sides = [ann.left, ann.right]
+            non_none = [x for x in sides if not (isinstance(x, ast.Constant) and x.value is None)]
+            if len(non_none) == 1:
+                inner = self._ann_type(non_none[0])
+                return Opt(inner) if inner is not None else None
+            return None
+        if isinstance(ann, ast.Subscript) and isinstance(ann.value, ast.Name):
+            args = ann.slice.elts if isinstance(ann.slice, ast.Tuple) else [ann.slice]
+            inner = [self._ann_type(a) for a in args]
+            if any(t is None for t in inner):
+                return None
+            if ann.value.id in ("list", "List", "deque") and len(inner) == 1:
+                return SeqT(inner[0])
+            if ann.value.id in ("set", "Set", "frozenset") and len(inner) == 1:
+                return SetT(inner[0])
+            if ann.value.id in ("dict", "Dict") and len(inner) == 2:
+                return MapT(inner[0], inner[1])
+        return None
+
+    def _auto_field(self, shape, field: str) -> bool:
+        """A bookkeeping attribute that the class declares (`self.x: T = ...`) but the sidecar shape does not mention: it becomes a
+        "don't care" field of the declared type - unconstrained at entry, outside every frame check - so that code using it can still
+        be interpreted (what the code then does with arbitrary contents is judged by the contract)."""
+        if not getattr(shape, "auto_fields", False) or not shape.cls or not self.src.has_module(shape.cls[0]):
+            return False
+        seen, todo = set(), [tuple(shape.cls)]
+        while todo:
+            m, c = todo.pop(0)
+            if (m, c) in seen or not self.src.has_module(m):
+                continue
+            seen.add((m, c))
+            try:
+                cls = self.src.klass(m, c)
+            except Exception:
+                continue
+            for node in ast.walk(cls):
+                if isinstance(node, ast.AnnAssign) and isinstance(node.target, ast.Attribute) and isinstance(node.target.value, ast.Name) \
+                        and node.target.value.id == "self" and node.target.attr == field:
+                    ty = self._ann_type(node.annotation)
+                    if ty is not None:
+                        shape.fields[field] = ty
+                        shape.dont_care = getattr(shape, "dont_care", set()) | {field}
+                        return True
+            try:
+                todo.extend(self.src.class_bases(m, c))
+            except Exception:
+                pass
+        return False
 
     # ------------------------------------------------------------------ branching
     def branch(self, st: State, cond, label=""):
